@@ -2,6 +2,7 @@ package main
 
 import (
 	"fmt"
+	"os"
 	"strings"
 
 	"github.com/sarchlab/akita/v4/mem/vm"
@@ -31,6 +32,9 @@ func c05Devices(rng *Rng, sizes []uint64) *driver.Driver {
 }
 
 func runC05(r *Run, rng *Rng, replay string) {
+	if only := os.Getenv("C05_ONLY"); only != "" && only != "base" {
+		return
+	}
 	thorough := r.Tier == "thorough"
 
 	// (1) deviceIDByPAddr: the real loop over the device MAP (iteration order changes from call
